@@ -132,6 +132,11 @@ def bundled(thorough=False):
     prim_cool = ["CIC_HI", "CIC_HeI", "CIC_HeII", "CIC_He_2S", "RC_HII", "RC_HeI", "RC_HeII", "RC_HeIII", "CEC_HI", "CEC_HeI", "CEC_HeII"]
     prim = {"filelist": f"{ex}/primordial/primordial.krome", "fileformats": "krome", "elements": ["e", "H", "D", "He"], "pseudo_elements": ["Photon"]}
     out.append(Case("T-primordial-cooling", {"network": dict(prim, cooling=prim_cool)}, ref="meta", pseudo=["Photon"], tags={"bundled", "thermal"}))
+    # thermal processes registered by the user, with a single reactant (no built-in process has fewer than two)
+    reg = ("from naunet import thermalprocess as tp\n"
+           "tp.supported_cooling_process['USER_H2LINE'] = tp.ThermalProcess(['H2'], '1.0e-27 * sqrt(Temp)')\n"
+           "tp.supported_cooling_process['USER_HLINE'] = tp.ThermalProcess(['H'], '2.0e-27')\n")
+    out.append(Case("T-user-one-reactant", {"pre": [{"op": "exec", "code": reg}], "network": dict(prim, cooling=["CIC_HI", "USER_H2LINE", "USER_HLINE"])}, ref="meta", pseudo=["Photon"], tags={"bundled", "thermal"}))
     out.append(Case("T-primordial-cool2", {"network": dict(prim, cooling=["CIC_HI", "RC_HII"])}, ref="meta", pseudo=["Photon"], tags={"bundled", "thermal"}))
     if thorough:
         out.append(Case("B-rate12_HO.leeds", {"network": {"filelist": f"{td}/rate12_HO.leeds", "fileformats": "leeds"}}, ref="meta", tags={"bundled", "large"}))
@@ -152,6 +157,9 @@ def modifier_cases():
         "two-terms": {"O": {"factors": ["1.5", "-0.25"], "reactants": [["H"], ["C", "CO"]]}},
         "two-species": {"H": {"factors": ["2.0"], "reactants": [["O"]]}, "C": {"factors": ["-4.0"], "reactants": [["CH", "O"]]}},
         "dep0": {"H": {"factors": ["1.0"], "reactants": [[]]}},
+        # literals such as 100.0 / 10.0 inside a factor, next to + and - (the text "0.0 + " / "0.0 - " occurs inside it)
+        "dep-literal-zero": {"H": {"factors": ["0.5 * (100.0 - Av) * zeta"], "reactants": [["C"]]}, "CO": {"factors": ["-(20.0 - 0.5*Av)"], "reactants": [["O"]]}},
+        "dep-literal-zero-plus": {"H": {"factors": ["(10.0 + Av)", "2.0"], "reactants": [["H", "C"], ["O"]]}},
         # factors whose top-level operator binds weaker than '*' (the factor is one unit in every derivative)
         "dep2-sum-factor": {"H": {"factors": ["zeta - 2.0*Av"], "reactants": [["H", "C"]]}},
         "dep2-repeated-leading-minus": {"CH": {"factors": ["-zeta + Av"], "reactants": [["H", "H"]]}},
